@@ -26,7 +26,9 @@ META = {
                  "+ spec-decoder / repo-decoder / objdump oracles",
 }
 REQUIRED = ["rv_unpack_pack", "rv_isa_wf", "rv_table_prefix_free", "rv_table_matches_isa_partial", "rv_decode_encode",
-            "rv_ranges_match_isa_partial"]
+            "rv_ranges_match_isa_partial", "rv_table_rows_roundtrip",
+            "la_unpack_pack", "la_isa_wf", "la_layouts_ok", "la_table_prefix_free", "la_table_matches_isa_partial",
+            "la_decode_encode", "la_table_rows_roundtrip"]
 
 GEN_RV = os.path.join(LEAN, "WaVerif", "Gen", "C17Riscv.lean")
 GEN_LA = os.path.join(LEAN, "WaVerif", "Gen", "C17Loong64.lean")
@@ -349,6 +351,210 @@ def gen_la_ops(rows, fmtinfo, rng, tier):
     return ops
 
 
+# ------------------------------------------------------------------ x86-64 (exploration: objdump oracle)
+
+X64_REG64 = ["rax", "rcx", "rdx", "rbx", "rsp", "rbp", "rsi", "rdi", "r8", "r9", "r10", "r11", "r12", "r13", "r14", "r15"]
+X64_REG32 = ["eax", "ecx", "edx", "ebx", "esp", "ebp", "esi", "edi"] + ["r%dd" % i for i in range(8, 16)]
+X64_REG16 = ["ax", "cx", "dx", "bx", "sp", "bp", "si", "di"] + ["r%dw" % i for i in range(8, 16)]
+X64_REG8 = ["al", "cl", "dl", "bl", "spl", "bpl", "sil", "dil"] + ["r%db" % i for i in range(8, 16)]
+X64_FAMILY = {}
+for _i in range(16):
+    for _l in (X64_REG64, X64_REG32, X64_REG16, X64_REG8):
+        X64_FAMILY[_l[_i]] = _i
+X64_SIZE = {}
+for _n in X64_REG64: X64_SIZE[_n] = 8
+for _n in X64_REG32: X64_SIZE[_n] = 4
+for _n in X64_REG16: X64_SIZE[_n] = 2
+for _n in X64_REG8: X64_SIZE[_n] = 1
+X64_SYN = {"jz": "je", "jnz": "jne", "jnae": "jb", "jc": "jb", "jnbe": "ja", "jnl": "jge", "setz": "sete", "setnz": "setne",
+           "setnbe": "seta", "setnb": "setae", "setnc": "setae", "setc": "setb", "setnae": "setb", "setna": "setbe", "setnle": "setg",
+           "setnl": "setge", "setnge": "setl", "setng": "setle", "setpo": "setnp", "cmovnz": "cmovne", "sal": "shl", "movabs": "mov",
+           "cltd": "cdq", "cqto": "cqo", "retq": "ret", "ret": "ret"}
+X64_PTR = {"BYTE": "byte", "WORD": "word", "DWORD": "dword", "QWORD": "qword", "XMMWORD": "xmmword"}
+
+
+def x64_parse_int(t):
+    t = t.strip()
+    neg = t.startswith("-")
+    if neg:
+        t = t[1:]
+    v = int(t, 16) if t.startswith("0x") else int(t)
+    return -v if neg else v
+
+
+def x64_parse_objdump_operand(t):
+    t = t.strip()
+    m = re.match(r"^(?:(BYTE|WORD|DWORD|QWORD|XMMWORD) PTR )?(?:[a-z]s:)?\[(.*)\]$", t)
+    if m:
+        size = X64_PTR.get(m.group(1) or "", None)
+        base, idx, scale, disp = None, None, 1, 0
+        body = m.group(2).replace("-", "+-")
+        for part in [x for x in body.split("+") if x]:
+            if "*" in part:
+                idx, sc = part.split("*"); scale = int(sc)
+            elif re.match(r"^-?(0x[0-9a-f]+|\d+)$", part):
+                disp += x64_parse_int(part)
+            elif base is None:
+                base = part
+            else:
+                idx = part
+        return ("mem", size, base, idx, scale, disp)
+    m = re.match(r"^(?:(BYTE|WORD|DWORD|QWORD) PTR )?[a-z]s:(0x[0-9a-f]+)$", t)
+    if m:
+        return ("mem", X64_PTR.get(m.group(1) or "", None), None, None, 1, int(m.group(2), 16))
+    if re.match(r"^-?(0x[0-9a-f]+|\d+)$", t):
+        return ("imm", x64_parse_int(t))
+    return ("reg", t)
+
+
+def x64_parse_objdump(text):
+    """'mov    r8,QWORD PTR ds:0x64' -> ('mov', [operands]); prefixes other than rep/lock make the line foreign."""
+    text = text.split("#")[0].strip()
+    f = text.split(None, 1)
+    if not f:
+        return None
+    mn = f[0]
+    if mn.startswith("rex") or mn in ("(bad)", "data16", "cs", "ds", "es", "ss", "fs", "gs"):
+        return ("(prefix)", [])
+    ops = []
+    if len(f) > 1:
+        depth, cur = 0, ""
+        for ch in f[1]:
+            if ch == "[": depth += 1
+            if ch == "]": depth -= 1
+            if ch == "," and depth == 0:
+                ops.append(cur); cur = ""
+            else:
+                cur += ch
+        ops.append(cur)
+    return (X64_SYN.get(mn, mn), [x64_parse_objdump_operand(o) for o in ops])
+
+
+def x64_expected(name, toks):
+    ops = []
+    for t in toks:
+        if t == "-":
+            continue
+        f = t.split(":")
+        if f[0] == "reg":
+            ops.append(("reg", f[1]))
+        elif f[0] == "imm":
+            ops.append(("imm", int(f[1])))
+        else:
+            ops.append(("mem", f[1], None if f[2] == "-" else f[2], None, 1, int(f[3])))
+    return (X64_SYN.get(name, name), ops)
+
+
+def x64_equal(exp, got, start, length):
+    """structural comparison after canonicalisation; returns None if equal, else a short symptom."""
+    if got is None or got[0] == "(prefix)":
+        return "undecodable"
+    emn, eops = exp
+    gmn, gops = got
+    if emn != gmn:
+        return "wrong-instruction"
+    # branch targets: objdump prints the absolute target = start + length + rel
+    if emn in ("jmp", "call", "je", "jne", "ja", "jb", "jge", "jns") and eops and eops[0][0] == "imm":
+        if len(gops) == 1 and gops[0][0] == "imm" and (gops[0][1] - (start + length)) % (1 << 64) == eops[0][1] % (1 << 64):
+            return None
+        return "branch-target"
+    if len(eops) != len(gops):
+        return "operand-count"
+    # mov r, imm: `mov eax, imm32` and `mov rax, imm` with a zero-extended value are the same operation
+    if emn == "mov" and len(eops) == 2 and eops[0][0] == "reg" and eops[1][0] == "imm" and gops[0][0] == "reg" and gops[1][0] == "imm":
+        er, gr = eops[0][1], gops[0][1]
+        if X64_FAMILY.get(er) is not None and X64_FAMILY.get(er) == X64_FAMILY.get(gr):
+            ev = eops[1][1] % (1 << (8 * X64_SIZE[er])) if X64_SIZE[er] < 8 else eops[1][1] % (1 << 64)
+            gv = gops[1][1] % (1 << (8 * X64_SIZE[gr])) if X64_SIZE[gr] < 8 else gops[1][1] % (1 << 64)
+            if X64_SIZE[er] >= 4 and X64_SIZE[gr] >= 4 and ev == gv:
+                return None
+    size = 8
+    for o in eops:
+        if o[0] == "reg" and o[1] in X64_SIZE:
+            size = X64_SIZE[o[1]]
+            break
+        if o[0] == "mem":
+            size = {"byte": 1, "word": 2, "dword": 4, "qword": 8}[o[1]]
+            break
+    for e, g in zip(eops, gops):
+        if e[0] != g[0]:
+            return "operand-kind"
+        if e[0] == "reg" and e[1] != g[1]:
+            return "register"
+        if e[0] == "imm" and (e[1] - g[1]) % (1 << (8 * size)) != 0:
+            return "immediate"
+        if e[0] == "mem":
+            if emn != "lea" and g[1] is not None and e[1] != g[1]:
+                return "mem-size"
+            if (e[2] or None) != (g[2] or None) or g[3] is not None:
+                return "mem-base"
+            if (e[5] - g[5]) % (1 << 64) != 0:
+                return "mem-disp"
+    return None
+
+
+def gen_x64_ops(names, rng, tier):
+    ops = []
+    r64 = ["rax", "rcx", "rsp", "rbp", "rsi", "r8", "r12", "r13", "r15"]
+    r32 = ["eax", "ecx", "esp", "ebp", "edi", "r8d", "r12d", "r13d", "r15d"]
+    imms = [0, 1, -1, 2, 61, 127, 128, -128, -129, 255, 256, 32767, 65535, (1 << 31) - 1, -(1 << 31), (1 << 31), (1 << 32) - 1,
+            (1 << 32), -(1 << 32), (1 << 63) - 1, -(1 << 63), 0x3FF0000000000000]
+    disps = [0, 1, -1, 8, -16, 127, 128, -128, -129, 300, -768, (1 << 31) - 1, -(1 << 31)]
+    bases = X64_REG64 + ["rip", "-"]
+    if tier != "quick":
+        r64, r32 = X64_REG64, X64_REG32
+        disps += [rng.randrange(-(1 << 31), 1 << 31) for _ in range(20)]
+        imms += [rng.randrange(-(1 << 63), 1 << 63) for _ in range(20)]
+    def mem(sz, b, d):
+        return "mem:%s:%s:%d" % (sz, b, d)
+    for n in names:
+        # no operands / one operand
+        ops.append("x64 %s - - -" % n)
+        for r in r64[:5] + r32[:3] + ["ax", "al", "r9b", "xmm1"]:
+            ops.append("x64 %s reg:%s - -" % (n, r))
+        for im in imms[:8]:
+            ops.append("x64 %s imm:%d - -" % (n, im))
+        for sz in ("dword", "qword"):
+            for b in ("rbp", "rsp", "r12", "r13", "rax"):
+                ops.append("x64 %s %s - -" % (n, mem(sz, b, -768 if b == "rbp" else 0)))
+        # two operands
+        for regs, sz in ((r64, "qword"), (r32, "dword")):
+            for a in regs:
+                for b in regs[:: (1 if n in ("mov", "add") or tier != "quick" else 3)]:
+                    ops.append("x64 %s reg:%s reg:%s -" % (n, a, b))
+            for a in regs[:4]:
+                for im in (imms if n in ("mov", "movabs", "add", "cmp") or tier != "quick" else imms[:10]):
+                    ops.append("x64 %s reg:%s imm:%d -" % (n, a, im))
+            full = n in ("mov", "lea", "add") or tier != "quick"
+            for b in (bases if full else ["rbp", "rsp", "r12", "r13", "rax", "rip"]):
+                for d in (disps if full else disps[:9]):
+                    ops.append("x64 %s reg:%s %s -" % (n, regs[(abs(d) + len(b)) % len(regs)], mem(sz, b, d)))
+                    if full or d in (0, -16, 300):
+                        ops.append("x64 %s %s reg:%s -" % (n, mem(sz, b, d), regs[(abs(d) + 1) % len(regs)]))
+                        ops.append("x64 %s %s imm:%d -" % (n, mem(sz, b, d), imms[abs(d) % 10]))
+        for a, b in (("eax", "al"), ("eax", "cl"), ("rax", "cl"), ("al", "cl"), ("ax", "cx"), ("xmm4", "xmm5"), ("xmm4", "rax"), ("rax", "xmm4"),
+                     ("xmm4", "eax"), ("eax", "xmm4"), ("rax", "eax"), ("rax", "ecx")):
+            ops.append("x64 %s reg:%s reg:%s -" % (n, a, b))
+        for sz in ("dword", "qword"):
+            ops.append("x64 %s reg:xmm4 %s -" % (n, mem(sz, "rbp", -64)))
+            ops.append("x64 %s %s reg:xmm4 -" % (n, mem(sz, "rbp", -64)))
+        ops.append("x64 %s reg:xmm4 reg:xmm4 imm:2" % n)
+    return ops
+
+
+def x64_form(toks):
+    def k(t):
+        if t == "-":
+            return "-"
+        f = t.split(":")
+        if f[0] == "mem":
+            return "mem(%s)" % ("rip" if f[2] == "rip" else ("abs" if f[2] == "-" else "base"))
+        if f[0] == "reg":
+            return "xmm" if f[1].startswith("xmm") else "r%d" % (8 * X64_SIZE.get(f[1], 0))
+        return "imm"
+    return ",".join(k(t) for t in toks if t != "-") or "none"
+
+
 def write_if_changed(path, text):
     """regenerate: the old file is removed first so a failed generation cannot leave a stale table behind."""
     old = open(path).read() if os.path.exists(path) else None
@@ -667,6 +873,71 @@ def run(ctx):
     for o, r in a_acc[:3]:
         # the encoder started to accept something: there is no ARM64 specification decoder in this check yet
         ctx.proof["broken"].append({"theorem": "arm64 coverage", "why": "arm64.Encode now accepts %r -> %r but C17 has no ARM64 reference; extend the check" % (o, r)})
+
+
+    # =============================================================== x86-64 (exploration)
+    _, xd, _ = ctx.run_bin(h, args=["dump", "x64"])
+    xnames = [l.split()[2] for l in xd.splitlines() if l.startswith("as ")]
+    x_ops = [o for o in ops if o.startswith("x64 ")] + gen_x64_ops(xnames, ctx.rng, ctx.tier)
+    seen = set()
+    x_ops = [o for o in x_ops if not (o in seen or seen.add(o))]
+    _, out, err = ctx.run_bin(h, input_text="\n".join(x_ops) + "\n")
+    ximpl = out.splitlines()
+    if len(ximpl) != len(x_ops):
+        from lib.vlib import InfraError
+        raise InfraError("harness output length %d != %d x64 ops\n%s" % (len(ximpl), len(x_ops), err[-2000:]))
+    evaluations += len(x_ops)
+    blob = bytearray()
+    starts = {}
+    for i, r in enumerate(ximpl):
+        if r.startswith("ok "):
+            code = bytes.fromhex(r.split()[1])
+            starts[i] = (len(blob), len(code))
+            blob += code + b"\x90" * 16           # nop sled: the disassembler resynchronises before the next instruction
+    binf = os.path.join(ctx.tmp, "x64.bin")
+    with open(binf, "wb") as fb:
+        fb.write(bytes(blob))
+    od = subprocess.run(["objdump", "-D", "-b", "binary", "-m", "i386:x86-64", "-M", "intel", "--insn-width=16", binf],
+                        stdout=subprocess.PIPE, stderr=subprocess.STDOUT, text=True)
+    by_addr = {}
+    for l in od.stdout.splitlines():
+        mm = re.match(r"^\s*([0-9a-f]+):\t([0-9a-f ]+?)\s*\t(.*)$", l)
+        if mm:
+            by_addr[int(mm.group(1), 16)] = (len(mm.group(2).split()), mm.group(3))
+    if starts and not by_addr:
+        from lib.vlib import InfraError
+        raise InfraError("objdump produced no disassembly:\n" + od.stdout[:500])
+    x_accept_forms = {}
+    for i, (o, r) in enumerate(zip(x_ops, ximpl)):
+        f = o.split()
+        name, toks = f[1], f[2:5]
+        form = x64_form(toks)
+        if r.startswith(("PANIC", "MISMATCH", "bad")):
+            ctx.violation("x64:harness:%s" % r.split()[0], "%s -> %s" % (o, r), {"op": o, "impl": r})
+            continue
+        if not r.startswith("ok "):
+            bump("x64_" + r.replace(" ", "_"))
+            continue
+        bump("x64_accepted")
+        st, ln = starts[i]
+        dl, dtext = by_addr.get(st, (0, "(no line)"))
+        exp = x64_expected(name, toks)
+        got = x64_parse_objdump(dtext)
+        sym = x64_equal(exp, got, st, ln)
+        if sym is None and dl != ln:
+            sym = "length"
+        x_accept_forms[(name, form)] = x_accept_forms.get((name, form), 0) + 1
+        nontrivial.add(("x64", name, form, sym or "ok"))
+        if sym:
+            ctx.violation("x64:%s:%s:%s" % (name, form, sym),
+                          "x64.Encode accepts `%s` and produces %s, which objdump disassembles as `%s`" % (o, r.split()[1], " ".join(dtext.split())),
+                          {"op": o, "impl": r, "objdump": dtext})
+        else:
+            bump("x64_objdump_roundtrip_ok")
+        if len(samples) < 16 and i % 701 == 0:
+            samples.append({"op": o, "impl": r, "objdump": " ".join(dtext.split())})
+    dist["x64_accepted_forms"] = len(x_accept_forms)
+    dist["x64_accepted_mnemonics"] = sorted({k[0] for k in x_accept_forms})
 
     cov = {
         "evaluations": evaluations,
